@@ -72,7 +72,7 @@ type input struct {
 func build(src string) (sp *spec.Spec, T *lr.ParsingTable, perr, terr, panicked error) {
 	var twice error
 	panicked = rec.Guard(func() {
-		sp, perr = spec.Parse("t.ebnf", strings.NewReader(src))
+		sp, perr = spec.Parse("t.ebnf", ref.Source(src))
 		if perr == nil {
 			T, terr, twice = tableOf(sp, src)
 		}
@@ -465,7 +465,7 @@ func derived(sp *spec.Spec) *ref.Grammar {
 func checkEBNF(m *ref.SpecModel, src string, n int, cyclicListed bool) (cls string, nontrivial bool, err error) {
 	var sp *spec.Spec
 	var perr error
-	if p := rec.Guard(func() { sp, perr = spec.Parse("t.ebnf", strings.NewReader(src)) }); p != nil {
+	if p := rec.Guard(func() { sp, perr = spec.Parse("t.ebnf", ref.Source(src)) }); p != nil {
 		return "panic", false, fmt.Errorf("%v\nspecification:\n%s", p, src)
 	}
 	if perr != nil {
